@@ -125,6 +125,21 @@ impl Node {
 		});
 		v.into_inner()
 	}
+	/// Handle pending events, refusing (once) the first one `refuse` picks. Returns what was handled and
+	/// whether an event was refused.
+	pub fn events_refusing(&self, refuse: &dyn Fn(&Event) -> bool) -> (Vec<Event>, bool) {
+		let v = std::cell::RefCell::new(vec![]);
+		let refused = std::cell::Cell::new(false);
+		self.mgr.process_pending_events(&|e: Event| {
+			if !refused.get() && refuse(&e) {
+				refused.set(true);
+				return Err(ReplayEvent());
+			}
+			v.borrow_mut().push(e);
+			Ok(())
+		});
+		(v.into_inner(), refused.get())
+	}
 	pub fn monitor_events(&self) -> Vec<Event> {
 		let v = std::cell::RefCell::new(vec![]);
 		self.mon.process_pending_events(&|e: Event| {
